@@ -201,7 +201,7 @@ def icap_csv_sample_format(path: str | Path) -> str:
         path = Path(path)
 
     with path.open("r", encoding="utf-8-sig") as fp:
-        lines = [next(fp) for i in range(3)]
+        lines = [fp.readline() for i in range(3)]  # empty strings past the end
     if "MainRuns" in lines[0]:
         return "rows"
     elif "MainRuns" in lines[2]:
